@@ -1,9 +1,96 @@
-(* C12 — property theorems (statements only; proofs live in Proofs.v). *)
+(* C12 — property theorems (statements only; proofs live in Proofs.v).
+   All statements are about the formula language of Model.v (unbounded: every formula, substitution, scope).
+   "qupulse's sympy-based evaluation returns `eval`" is NOT a theorem: sympy is the implementation, it is compared with
+   `eval` by the correspondence check (Corr.v + harness). *)
 From Coq Require Import ZArith QArith List Bool NArith.
 Require Import QV.C12.Model QV.C12.Proofs.
+Import ListNotations.
 
-(* builders: the formula built by `a <op> b` evaluates to the operator applied to the values *)
+(* evaluation depends only on the names that occur in the formula *)
+Theorem C12_eval_free_names : forall e r r',
+  (forall x, In x (fv e) -> sc r x = sc r' x) ->
+  (forall x, In x (fvv e) -> vc r x = vc r' x) ->
+  (forall f, In f (fns e) -> forall q, fn r f q = fn r' f q) ->
+  eval r e = eval r' e.
+Proof. exact eval_agree. Qed.
+Print Assumptions C12_eval_free_names.
+
+(* substitution lemma, simultaneous (swap-safe), under the executable capture guard: evaluating the substituted formula
+   = evaluating the formula in the scope extended by the values of the substituted terms (same value, or both none) *)
+Theorem C12_subst : forall e s r, capture_free s e = true ->
+  rsim (eval r (subst s e)) (eval (ext r s) e).
+Proof. exact subst_sim. Qed.
+Print Assumptions C12_subst.
+
+Theorem C12_subst_value : forall e s r v, capture_free s e = true ->
+  (eval r (subst s e) = Ok v <-> eval (ext r s) e = Ok v).
+Proof. exact subst_value. Qed.
+Print Assumptions C12_subst_value.
+
+(* the unguarded statement, kept type-checked: it is FALSE for the substitution qupulse/sympy implement *)
+Definition C12_subst_unguarded_statement : Prop :=
+  forall e s r, rsim (eval r (subst s e)) (eval (ext r s) e).
+
+(* refutation: c := k inside Sum(c*k, (k, 0, 2)) with k = 10 gives 5, evaluation at once gives 30 *)
+Theorem C12_subst_refuted :
+  exists x y, eval capture_r (subst capture_s capture_e) = Ok x /\ eval (ext capture_r capture_s) capture_e = Ok y /\
+              ~ x == y.
+Proof. exact subst_capture_witness. Qed.
+Print Assumptions C12_subst_refuted.
+
+Theorem C12_guard_excludes_witness : capture_free capture_s capture_e = false.
+Proof. exact capture_guard_rejects_witness. Qed.
+Print Assumptions C12_guard_excludes_witness.
+
+(* the guard is satisfiable by a non-trivial input (a swap a <-> b under a Sum that really changes the formula) *)
+Theorem C12_guard_nonvacuous : capture_free swap_s swap_e = true /\ subst swap_s swap_e <> swap_e.
+Proof. exact capture_guard_nonvacuous. Qed.
+Print Assumptions C12_guard_nonvacuous.
+
+(* substituting NUMBERS never captures: partial-then-full evaluation = evaluation at once (no guard) *)
+Theorem C12_partial : forall e l r, rsim (eval r (subst (consts l) e)) (eval (over l r) e).
+Proof. exact partial_sim. Qed.
+Print Assumptions C12_partial.
+
+(* ... for every split l1 ++ l2 of a scope *)
+Theorem C12_partial_split : forall e l1 l2 vcs t v,
+  eval (mk_env l2 vcs t) (subst (consts l1) e) = Ok v <-> eval (mk_env (l1 ++ l2) vcs t) e = Ok v.
+Proof. exact partial_split. Qed.
+Print Assumptions C12_partial_split.
+
+(* builders: the formula built by `a <op> b` evaluates to the operator applied to the values (// = floor of quotient) *)
 Theorem C12_builders : forall r o a b,
   eval r (build o a b) = bind2 (eval r a) (eval r b) (bop_val o).
 Proof. exact build_correct. Qed.
 Print Assumptions C12_builders.
+
+Theorem C12_builder_neg : forall r a, eval r (build_neg a) = bind (eval r a) (fun x => Ok (- x)).
+Proof. exact build_neg_correct. Qed.
+Print Assumptions C12_builder_neg.
+
+(* tri-state comparison: a decision is sound in every scope; formulas with free names are left undecided *)
+Theorem C12_cmp_sound : forall f c a b res, cmp_model f c a b = Some res ->
+  forall r, (forall g q, fn r g q = f g q) ->
+  exists x y, eval r a = Ok x /\ eval r b = Ok y /\ cmp_eval c x y = res.
+Proof. exact cmp_sound. Qed.
+Print Assumptions C12_cmp_sound.
+
+Theorem C12_cmp_undecided : forall f c a b, closed a && closed b = false -> cmp_model f c a b = None.
+Proof. exact cmp_undecided_open. Qed.
+Print Assumptions C12_cmp_undecided.
+
+(* exact-rational closure: `eval` is a function into Q, so every value it returns is the exact rational number the
+   formula denotes; for the rational fragment (no sin/cos/exp) that value does not depend on any interpretation of the
+   transcendental functions, i.e. it is determined by the rational inputs alone *)
+Theorem C12_exact_rational_fragment : forall e r g, fns e = [] ->
+  eval r e = eval {| sc := sc r; vc := vc r; fn := g |} e.
+Proof. exact rational_fragment. Qed.
+Print Assumptions C12_exact_rational_fragment.
+
+(* array evaluation = map of scalar evaluation: stated, NOT proved (only tested: every array case compares the
+   broadcasting model `evalv` and the pointwise specification with the implementation) *)
+Definition C12_vector_statement : Prop :=
+  forall e r n v,
+    (forall x l, asc r x = Some (VArr l) -> length l = n) ->
+    evalv r e = Ok v ->
+    forall j, (j < n)%nat -> exists q, vget v j = Some q /\ eval (proj r j) e = Ok q.
